@@ -273,6 +273,15 @@ func (kc *Cache[V]) evict() *Entry[V] {
 		}
 	}
 	if n < 0 {
+		// every bucket is at or below its minimum: fall back to the farthest non-empty bucket
+		for i, b := range kc.buckets {
+			if b.len() > 0 {
+				n = i
+				break
+			}
+		}
+	}
+	if n < 0 {
 		return nil
 	}
 	b := kc.buckets[n]
